@@ -66,7 +66,8 @@ class PSock(simnet.SimSocket):
         if st[0] == "eof":
             return b""
         if st[0] == "oserr":
-            raise _socket.error(104, "Connection reset by peer")
+            # which errno the failing recv reports varies (a reset, an interrupted call, "temporarily unavailable", ...)
+            raise _socket.error(*(simnet.OS_ERRORS[st[1] % len(simnet.OS_ERRORS)] if len(st) > 1 else (104, "Connection reset by peer")))
         raise RuntimeError("recv exploded")
 
     def close(self):
@@ -287,8 +288,16 @@ def gen(rnd):
         script = [("eof",)]
         expect = "fail"
     elif rk in ("oserr", "exc"):
-        pre = b"HTTP/1.1 200 OK\r\n"[:rnd.randrange(0, 17)]
-        script = ([("data", pre)] if pre else []) + [(rk,)]
+        if rnd.random() < 0.5:
+            pre = b"HTTP/1.1 200 OK\r\n"[:rnd.randrange(0, 17)]
+            script = ([("data", pre)] if pre else []) + [(rk,)]
+        else:
+            # the read fails inside an answer that was fine so far -- after a whole line, after a piece that is just the line
+            # terminator -- and whatever the proxy would have sent next is there for an implementation that reads on
+            head = b"HTTP/1.1 200 Connection established" + rnd.choice([b"", b"\r\nVia: 1.1 proxy.test", b"\r\nProxy-Agent: p/1\r\nX-A: b"])
+            pieces = [("data", c) for c in scen.chunkings(rnd, head, "random", maxchunk=1024)] + [("data", b"\r\n")]
+            fault = ("oserr", rnd.randrange(0, 7)) if rk == "oserr" else (rk,)
+            script = pieces + [fault] + rnd.choice([[("eof",)], [("data", b"\r\n"), ("eof",)], [("data", b"X-B: c\r\n\r\n"), ("eof",)]])
         expect = "fail"
     elif rk == "garbage":
         reply = rnd.choice([b"\r\n\r\n", b"SSH-2.0-OpenSSH\r\n\r\n", b"HTTP/1.1 OK 200\r\n\r\n", b"\x16\x03\x01\x02\x00\r\n\r\n"])
